@@ -69,11 +69,15 @@ def _weval(task):
             ref.learn(s2, d2)
         exp = ref.display(s2)
         out["display_checks"] += len(exp)
+        told = set()       # one mismatch per property it belongs to (a thread-row mismatch must not hide a CPU-row one)
         for k, v in exp.items():
             got = d2.get(k, 0)
             if (got not in v) if isinstance(v, (tuple, set, frozenset)) else (got != v):
+                who = ref.attribute("display", (label, k))
+                if who in told:
+                    continue
+                told.add(who)
                 viol("display", (label, k), ev, "%s row %d type %d shows %d, reference says %s" % (k[0], k[1], k[2], got, v), s2)
-                return
     for (label, ev), r in zip(a, pres):
         out["probes"] += 1
         if r is None:
@@ -449,12 +453,16 @@ class Explorer:
     def _check_display(self, s, disp, hist, ev, label):
         exp = self.ref.display(s)
         self.stats["display_checks"] += len(exp)
+        told = set()
         for k, v in exp.items():
             got = disp.get(k, 0)
             if (got not in v) if isinstance(v, (tuple, set, frozenset)) else (got != v):
+                who = self.ref.attribute("display", (label, k))
+                if who in told:
+                    continue
+                told.add(who)
                 self._viol("display", (label, k), hist, ev,
                            "%s row %d type %d shows %d, reference says %s" % (k[0], k[1], k[2], got, v), s)
-                return
 
 
 def bind_shallow(ctx, build, system, pool, explorer, tag, emu_flags=("-l",), limit=400):
